@@ -13,7 +13,7 @@
 //	                       b:m:mode:ex:path:key    b:m:mode:del:path:key
 //	                       c:m:mode:write:digest:hexcontent   c:m:mode:load:digest   c:m:mode:ex:digest
 //	                       r:m:mode:write:key:d1.d2...        r:m:mode:load:key      r:m:mode:has:key
-//	                       reset:m                 (new process: fresh caching.Cas objects, empty exists-memo)
+//	                       reset:m                 (new process: fresh caching.Cas objects, empty exists- and stored-memo)
 //	                     answer: per op  class|A:<obs>|B:<obs>|R:<obs>  joined by tabs, obs = sorted
 //	                     path/key=hexcontent (target entries: path/key=r:d1.d2 decoded from the protobuf)
 //	store audit <cache dir> <algo>   offline audit of a cache directory, JSON on stdout
